@@ -173,7 +173,62 @@ func (s *sided) mirrorIssues(ordered bool) []sideIssue {
 // the mirror operand of the other side.
 func (s *sided) nilTestIssues() []sideIssue {
 	var out []sideIssue
+	// decided: normalised operands whose nil-ness an earlier statement of the same block settled for one side, by a nil test
+	// whose branch leaves (if a == nil { return b == nil }; if b == nil { return false }: the second test has its
+	// counterpart in the first statement)
+	exempt := map[ast.Node]bool{}
+	nilTestOf := func(e ast.Expr) (side, norm string, ok bool) {
+		be, isB := unparen(e).(*ast.BinaryExpr)
+		if !isB || (be.Op != token.EQL && be.Op != token.NEQ) {
+			return "", "", false
+		}
+		var o ast.Expr
+		if isNilLit(be.Y) {
+			o = be.X
+		} else if isNilLit(be.X) {
+			o = be.Y
+		} else {
+			return "", "", false
+		}
+		return s.side(o), s.norm(o), true
+	}
+	ast.Inspect(s.body, func(n ast.Node) bool {
+		blk, ok := n.(*ast.BlockStmt)
+		if !ok {
+			return true
+		}
+		settled := map[string]bool{} // side|norm
+		for _, st := range blk.List {
+			ifs, ok := st.(*ast.IfStmt)
+			if !ok || ifs.Else != nil || !stmtsTerminate(ifs.Body.List) {
+				continue
+			}
+			sd, nm, isNil := nilTestOf(ifs.Cond)
+			if !isNil || (sd != "A" && sd != "B") {
+				continue
+			}
+			other := map[string]string{"A": "B", "B": "A"}[sd]
+			// (a) the branch answers with the mirror test: if a == nil { return b == nil }
+			if len(ifs.Body.List) == 1 {
+				if ret, ok := ifs.Body.List[0].(*ast.ReturnStmt); ok && len(ret.Results) == 1 {
+					if sd2, nm2, ok := nilTestOf(ret.Results[0]); ok && sd2 == other && nm2 == nm {
+						exempt[unparen(ifs.Cond)] = true
+						exempt[unparen(ret.Results[0])] = true
+					}
+				}
+			}
+			// (b) the mirror operand was settled by an earlier statement of this block
+			if settled[other+"|"+nm] {
+				exempt[unparen(ifs.Cond)] = true
+			}
+			settled[sd+"|"+nm] = true
+		}
+		return true
+	})
 	check := func(top ast.Expr) {
+		if exempt[unparen(top)] {
+			return
+		}
 		count := map[string]int{} // key: op|norm -> A count - B count
 		nodes := map[string]ast.Node{}
 		ast.Inspect(top, func(n ast.Node) bool {
